@@ -11,7 +11,7 @@ use vmodel::wire::{hex_short, Enc};
 pub const DEF: PropDef = PropDef {
     id: "C11",
     title: "Unknown enumerated code points are accepted and preserved, not rejected",
-    rule: "complete enumeration per field: for each of 38 (field, enclosing structure) pairs every value of the field's domain (256 or 65536; alert level x description and \
+    rule: "complete enumeration per field: for each of 41 (field, enclosing structure) pairs every value of the field's domain (256 or 65536; alert level x description and \
            hash x signature as 65536 pairs) is written into an otherwise well-formed structure built by the model encoders, parsed, and read back from the parsed value. \
            Surrounding values come from k seeded template variants (quick k = 2, thorough k = 25). Non-trivial = a value that has no named constant in the harness's IANA tables; \
            distinct by (field, value).",
@@ -19,7 +19,7 @@ pub const DEF: PropDef = PropDef {
     run,
 };
 
-pub const SUBS: &[SubDef] = &[SubDef { prop: "C11", name: "fields", oracle: fields }];
+pub const SUBS: &[SubDef] = &[SubDef { prop: "C11", name: "fields", oracle: fields }, SubDef { prop: "C11", name: "record_header_joint", oracle: record_header_joint }];
 
 fn run(ctx: &Ctx) {
     let k = ctx.pick(2, 25) as u8;
@@ -33,6 +33,10 @@ fn run(ctx: &Ctx) {
         }
     }
     ctx.run_enum("fields", fields, true, &format!("{} fields x every value of the field's domain x {} template variants", specs.len(), k), cases.into_iter());
+    // joint sweep of the three header fields: all 256 content types x all 256 version low bytes x version high bytes {03, 00, 7f, fe, ff}
+    // x length high bytes 0..=0x41 (x 3 low bytes), so that a guard keyed on a combination of fields cannot hide behind per-field sweeps
+    let cases = (0..256u32).flat_map(|ty| (0..256u32).map(move |vlo| vec![ty as u8, vlo as u8]));
+    ctx.run_enum("record_header_joint", record_header_joint, true, "256 content types x 256 version low bytes x 5 version high bytes x 66 length high bytes x 3 length low bytes, raw / encrypted / header parsers", cases);
 }
 
 struct Spec {
@@ -269,11 +273,76 @@ fn specs() -> Vec<Spec> {
                 o => Err(format!("{:?}", o)),
             }
         } },
+        Spec { name: "hash x signature algorithm (derived SignatureAndHashAlgorithm::parse)", bits: 16, registry: None, probe: |v, t| {
+            use nom_derive::Parse;
+            let b = [(v >> 8) as u8, v as u8, t.u8()];
+            SignatureAndHashAlgorithm::parse(&b).map(|(_, a)| (a.hash.0 as u32) << 8 | a.sign.0 as u32).map_err(err)
+        } },
+        Spec { name: "alert level x description (derived TlsMessageAlert::parse)", bits: 16, registry: None, probe: |v, t| {
+            use nom_derive::Parse;
+            let b = [(v >> 8) as u8, v as u8, t.u8()];
+            TlsMessageAlert::parse(&b).map(|(_, a)| (a.severity.0 as u32) << 8 | a.code.0 as u32).map_err(err)
+        } },
+        Spec { name: "record version (derived TlsRecordHeader::parse)", bits: 16, registry: Some(&ia::VERSION), probe: |v, t| {
+            use nom_derive::Parse;
+            let b = [t.u8(), (v >> 8) as u8, v as u8, t.u8(), t.u8()];
+            TlsRecordHeader::parse(&b).map(|(_, h)| h.version.0 as u32).map_err(err)
+        } },
         Spec { name: "DTLS alert level x description", bits: 16, registry: None, probe: |v, t| {
             let r = MDtlsRecord { ctype: 0x15, version: 0xfefd, epoch: t.u16(), seq: 1, msgs: vec![MDtlsMsg::Alert((v >> 8) as u8, v as u8)] };
             match parse_dtls_plaintext_record(&r.to_bytes()).map_err(err)?.1.messages.first() { Some(DTLSMessage::Alert(a)) => Ok((a.severity.0 as u32) << 8 | a.code.0 as u32), o => Err(format!("{:?}", o)) }
         } },
     ]
+}
+
+thread_local! {
+    static JBUF: std::cell::RefCell<Vec<u8>> = std::cell::RefCell::new(vec![0x61u8; 5 + 0x4200]);
+}
+
+/// parameter tape: [content type, version low byte]; the other dimensions are looped inside
+fn record_header_joint(t: &mut Tape, obs: &mut Obs) -> R {
+    let ty = t.u8();
+    let vlo = t.u8();
+    JBUF.with(|b| {
+        let mut b = b.borrow_mut();
+        for vhi in [0x03u8, 0x00, 0x7f, 0xfe, 0xff] {
+            for lhi in 0..=0x41u8 {
+                for llo in [0x00u8, 0x01, 0xff] {
+                    let l = (lhi as usize) << 8 | llo as usize;
+                    if l > 16640 {
+                        continue;
+                    }
+                    b[0] = ty;
+                    b[1] = vhi;
+                    b[2] = vlo;
+                    b[3] = lhi;
+                    b[4] = llo;
+                    let input = &b[..5 + l + 3];
+                    obs.evals_add(3);
+                    let want = (ty, (vhi as u16) << 8 | vlo as u16, l as u16);
+                    let r1 = guard("parse_tls_raw_record", || parse_tls_raw_record(input).map(|(rem, r)| (rem.len(), (r.hdr.record_type.0, r.hdr.version.0, r.hdr.len), r.data.len())).map_err(err))?;
+                    let r2 = guard("parse_tls_encrypted", || parse_tls_encrypted(input).map(|(rem, r)| (rem.len(), (r.hdr.record_type.0, r.hdr.version.0, r.hdr.len), r.msg.blob.len())).map_err(err))?;
+                    let r3 = guard("parse_tls_record_header", || parse_tls_record_header(input).map(|(_, h)| (h.record_type.0, h.version.0, h.len)).map_err(err))?;
+                    for (pn, r) in [("parse_tls_raw_record", &r1), ("parse_tls_encrypted", &r2)] {
+                        match r {
+                            Ok((rl, h, dl)) => ensure!(*rl == 3 && *h == want && *dl == l, format!("C11:joint:{}:changed", pn), "{}: header (type {:#04x}, version {:#06x}, len {}) came back as {:?}, payload {} bytes, remainder {}", pn, ty, want.1, l, h, dl, rl),
+                            Err(e) => return fail(format!("C11:joint:{}:rejected", pn), format!("{}: record with content type {:#04x}, version {:#06x}, length {} (within the cap, payload present) was {}", pn, ty, want.1, l, e)),
+                        }
+                    }
+                    match r3 {
+                        Ok(h) => ensure!(h == want, "C11:joint:parse_tls_record_header:changed", "parse_tls_record_header: {:?} expected {:?}", h, want),
+                        Err(e) => return fail("C11:joint:parse_tls_record_header:rejected", format!("parse_tls_record_header: type {:#04x} version {:#06x} len {} was {}", ty, want.1, l, e)),
+                    }
+                }
+            }
+        }
+        Ok::<(), Fail>(())
+    })?;
+    obs.nontrivial((ty as u64) << 8 | vlo as u64);
+    if obs.wants_sample() && ty > 0x80 {
+        obs.sample(json!({"content_type": ty, "version_low_byte": vlo, "version_high_bytes": [3, 0, 127, 254, 255], "length_high_bytes": "0x00..=0x41"}));
+    }
+    Ok(())
 }
 
 /// parameter tape: [field index, value_hi, value_lo, template variant]
